@@ -146,3 +146,91 @@ fn d02_equal_length_variable_names_are_substituted_in_a_fixed_order() {
     }
     assert_eq!(outs.len(), 1, "Location must not depend on hash order: {:?}", outs);
 }
+
+// ---- allocator that records deallocations whose layout differs from the allocation (for D16) ----
+mod layout_audit {
+    use std::alloc::{GlobalAlloc, Layout, System};
+    use std::cell::Cell;
+
+    thread_local! {
+        pub static MISMATCHES: Cell<usize> = const { Cell::new(0) };
+    }
+
+    pub struct Audit;
+
+    const HDR: usize = 16;
+
+    unsafe impl GlobalAlloc for Audit {
+        unsafe fn alloc(&self, layout: Layout) -> *mut u8 {
+            if layout.align() > HDR {
+                return unsafe { System.alloc(layout) };
+            }
+            let real = Layout::from_size_align(layout.size() + HDR, HDR).unwrap();
+            let p = unsafe { System.alloc(real) };
+            if p.is_null() {
+                return p;
+            }
+            unsafe {
+                (p as *mut usize).write(layout.size());
+                p.add(HDR)
+            }
+        }
+
+        unsafe fn dealloc(&self, ptr: *mut u8, layout: Layout) {
+            if layout.align() > HDR {
+                return unsafe { System.dealloc(ptr, layout) };
+            }
+            unsafe {
+                let base = ptr.sub(HDR);
+                let size = (base as *mut usize).read();
+                if size != layout.size() {
+                    let _ = MISMATCHES.try_with(|m| m.set(m.get() + 1));
+                }
+                System.dealloc(base, Layout::from_size_align(size + HDR, HDR).unwrap());
+            }
+        }
+
+        unsafe fn realloc(&self, ptr: *mut u8, layout: Layout, new_size: usize) -> *mut u8 {
+            unsafe {
+                let new_layout = Layout::from_size_align(new_size, layout.align()).unwrap();
+                let n = self.alloc(new_layout);
+                if !n.is_null() {
+                    std::ptr::copy_nonoverlapping(ptr, n, layout.size().min(new_size));
+                    self.dealloc(ptr, layout);
+                }
+                n
+            }
+        }
+    }
+}
+
+#[global_allocator]
+static AUDIT: layout_audit::Audit = layout_audit::Audit;
+
+/// D1 (C07/C18, R18.7): duplicating a non-empty buffer panics (`clone_from_slice` into an empty Vec).
+#[test]
+fn d01_buffer_duplicate_copies_the_bytes() {
+    use redirectionio::filter::Buffer;
+    let b = Buffer::from_vec(vec![1, 2, 3]);
+    let d = b.duplicate();
+    assert_eq!(d.into_vec(), vec![1, 2, 3]);
+    assert_eq!(b.into_vec(), vec![1, 2, 3]);
+}
+
+/// D16 (C18, R18.1): a buffer built from a Vec whose capacity exceeds its length is released with
+/// a layout of `len` bytes although `capacity` bytes were allocated.
+#[test]
+fn d16_buffer_is_released_with_the_layout_it_was_allocated_with() {
+    use redirectionio::filter::Buffer;
+    let before = layout_audit::MISMATCHES.with(|m| m.get());
+    let mut v = Vec::with_capacity(64);
+    v.extend_from_slice(b"abc");
+    let b = Buffer::from_vec(v);
+    drop(b.into_vec());
+    let mut s = String::with_capacity(100);
+    s.push_str("hello");
+    let b = Buffer::from_string(s);
+    drop(b.into_vec());
+    let after = layout_audit::MISMATCHES.with(|m| m.get());
+    assert_eq!(after - before, 0, "deallocation size differs from allocation size");
+}
